@@ -89,6 +89,11 @@ def gen_spec(rng, small=False, datatype=None, version=None, names=None, n_events
     dt = datatype or rng.wchoice([('I', 6), ('F', 2), ('D', 2)])
     # mostly few parameters; sometimes two-digit parameter numbers ($P10B ... $P12R)
     D = n_params or rng.wchoice([(1, 4), (2, 6), (3, 6), (4, 4), (5, 2), (6, 2), (10, 1), (11, 1), (12, 1)])
+    wide = False
+    if n_params is None and not small and rng.chance(0.012):
+        # a wide panel: more than 255 bytes per event (spectral cytometers have 60+ parameters)
+        D = rng.choice([40, 64, 100])
+        wide = True
     if dt == 'I':
         if rng.chance(0.5):
             widths = [rng.choice(WIDTHS)] * D
@@ -112,7 +117,7 @@ def gen_spec(rng, small=False, datatype=None, version=None, names=None, n_events
             R = (1 << rng.randint(1, min(w, 52) - 1)) + rng.choice([1, 1, 2, 3])
         ranges.append(R)
     if names is None:
-        if rng.chance(0.5):
+        if rng.chance(0.5) and D <= 14:
             pool = list(REAL_NAMES) + ['FL%d-W' % j for j in range(1, 6)]
             rng.shuffle(pool)
             names = pool[:D]
@@ -123,6 +128,8 @@ def gen_spec(rng, small=False, datatype=None, version=None, names=None, n_events
         N = rng.wchoice([(0, 4), (1, 8), (2, 8), (3, 10), (5, 10), (8, 10), (13, 10), (21, 8), (40, 4)])
         if small:
             N = min(N, 8)
+        if wide:
+            N = min(N, 3)
     else:
         N = n_events
     segs = ['TEXT', 'DATA']
@@ -171,6 +178,9 @@ def gen_spec(rng, small=False, datatype=None, version=None, names=None, n_events
         else:
             b = bytes(rng.randint(0, 255) for _ in range(n))
         pads.append(b.hex())
+    if n_params is None and not small and rng.chance(0.004):
+        # a file larger than 10**7 bytes: HEADER offsets fill all eight digits of their fields
+        pads[0] = 'big:%d' % rng.randint(9999900, 10000100)
     spec['pads'] = pads
     spec['events'] = gen_events(rng, spec, N)
     return spec
